@@ -289,6 +289,8 @@ fn run_redo() -> (Result<(), Error>, Option<StdinLogReader>) {
         }
         let mut server = JobServer::setup(j)?;
         assert!(ps.is_flushed());
+        #[cfg(feature = "verif-hooks")]
+        redo::verif::forced_command();
         let build_result = server.block_on(builder::run(
             &mut ps,
             &server.handle(),
